@@ -21,6 +21,15 @@ fixed share of the grammars with >= 2 nonterminals is evaluated a second time wi
 in another order (rotations of the canonical order and of its reverse: the start symbol in every position,
 helpers before the start symbol, bottom-up declarations), all clauses unchanged.  A clause that fails only in
 the re-ordered declaration gets the key suffix ':only-in-another-declaration-order'.
+Form and history of the text argument: parse() takes a str or an iterable of lines.  Every token string up to the
+bound is given as a str (a new object per call); then, per grammar in scope, one session with ONE list of lines
+and the same parser objects: the list is parsed, edited in place (item assignment / slice assignment / clear+extend,
+four line layouts) so that membership changes member -> non-member, non-member -> member or stays, parsed again,
+and also handed over again unchanged.  Each parse is judged by the clauses above on the token sequence the list
+holds at the moment of the call (an earlier call must not influence a later one).  A clause that holds for all
+str texts of the grammar and fails only here gets a key suffix ':only-for-a-list-of-lines',
+':only-when-the-parsed-list-of-lines-was-edited-in-place-and-parsed-again' or
+':only-when-the-unchanged-list-object-is-parsed-again'.
 Supporting (diagnostic only): the parser's nullable / FIRST / FOLLOW of the user's symbols equal the spec.
 """
 import itertools
@@ -77,7 +86,15 @@ def rule_text(tier):
             "parser object per setting for all texts; shortest first, in every second grammar all non-members before "
             "the members), is_ambiguous() is re-asked after every parse, and the verdicts are "
             "compared with the Earley oracle (itself compared with the brute-force language fixpoint on every such "
-            "grammar). non-trivial = LL(1) or conflict-free, and at least one member and one non-member decided")
+            "grammar). Then the text is given as a LIST OF LINES kept by the caller (the other documented form of the "
+            "argument): per such grammar one session of up to " + str(REPARSE_STEPS[tier]) + " parses with ONE list "
+            "object and the same two parser objects - the list is parsed, edited in place to another token string of "
+            "the bound (pattern member, unchanged, non-member, unchanged, member, other member, non-member, other "
+            "non-member, ...; every second grammar with the roles of member and non-member swapped; strings, line "
+            "layouts [" + ', '.join(LAYOUTS) + "] and edit styles [" + ', '.join(EDIT_STYLES) + "] chosen by the "
+            "CRC32 of the grammar's text) and parsed again; every parse is judged by the same clauses on the token "
+            "sequence the list holds at the moment of the call (oracle: the same Earley / brute-force membership). "
+            "non-trivial = LL(1) or conflict-free, and at least one member and one non-member decided")
 
 
 # ---------------------------------------------------------------------------------------------
@@ -153,6 +170,154 @@ def redeclared(G, tier):
 
 
 # ---------------------------------------------------------------------------------------------
+# the text as a list of lines, kept by the caller between calls: edited in place, parsed again
+# ---------------------------------------------------------------------------------------------
+# parse() documents two forms of its text argument: a str, or an iterable of lines.  A list of lines is a mutable
+# object the caller keeps (an editor buffer): it is parsed, edited IN PLACE and handed to the SAME parser object
+# again, or handed again unchanged.  The property speaks about the text, i.e. about the token sequence the object
+# holds at the moment of the call: expected verdict = membership of exactly that sequence (Earley + brute force),
+# expected tree = a derivation of exactly that sequence.  Nothing here looks at the implementation.
+
+REPARSE_STEPS = {'quick': 8, 'thorough': 24}
+REPARSE_OPS = ['M', 'same', 'X', 'same', 'M', 'M', 'X', 'X']      # M / X: edit to another member / non-member
+LAYOUTS = ['all tokens on one line', 'one token per line', 'two lines', 'blank lines and indentation']
+EDIT_STYLES = ['item assignment line by line (+ append / del for the length)', 'slice assignment buf[:] = lines',
+               'clear() and extend()']
+SFX_LIST = ':only-for-a-list-of-lines'
+SFX_EDITED = ':only-when-the-parsed-list-of-lines-was-edited-in-place-and-parsed-again'
+SFX_SAME = ':only-when-the-unchanged-list-object-is-parsed-again'
+
+
+def lines_of(w, layout):
+    """a list of lines whose token sequence is w (tokens are separated by blanks or line ends)"""
+    w = list(w)
+    if layout == 0:
+        return [' '.join(w)]
+    if layout == 1:
+        return list(w)                                  # the empty sequence: no line at all
+    if layout == 2:
+        k = (len(w) + 1) // 2
+        return [' '.join(w[:k]), ' '.join(w[k:])]
+    return ['', '  ' + ' '.join(w[:1]), '', ' '.join(w[1:]) + ' ']
+
+
+def edit_in_place(buf, target, style):
+    """make the list object buf hold the lines `target`; buf stays the same object"""
+    if style == 0:
+        n = min(len(buf), len(target))
+        for i in range(n):
+            if buf[i] != target[i]:
+                buf[i] = target[i]
+        if len(buf) > len(target):
+            del buf[len(target):]
+        else:
+            for x in target[n:]:
+                buf.append(x)
+    elif style == 1:
+        buf[:] = target
+    else:
+        buf.clear()
+        buf.extend(target)
+
+
+def reparse_plan(gs, decided, steps):
+    """deterministic in the grammar's text -> [(op, w, layout, style)], op in 'new', 'edit', 'same'"""
+    pools = {'M': [w for w, e in decided if e], 'X': [w for w, e in decided if not e]}
+    h = zlib.crc32(('reparse:' + gs).encode())
+    swap = {'M': 'X', 'X': 'M', 'same': 'same'}
+    plan, cur = [], None
+    for i in range(steps):
+        op = REPARSE_OPS[i % len(REPARSE_OPS)]
+        if h % 2:
+            op = swap[op]                               # every second grammar starts with a non-member
+        if op == 'same':
+            if cur is not None:
+                plan.append(('same', cur, None, None))
+            continue
+        pool = [w for w in pools[op] if w != cur]
+        if not pool:
+            continue
+        cur = pool[(h // 2 + 7 * i) % len(pool)]
+        plan.append(('edit' if plan else 'new', cur, (h // 3 + i) % len(LAYOUTS), (h // 5 + i) % len(EDIT_STYLES)))
+    return plan
+
+
+def reparse_session(gs_sorted, decided, steps, parse_all, judge, out):
+    """ONE list object and the parser objects of evaluate(): parse, edit the list in place, parse again, ...
+    every parse is judged (same clauses as for the str texts) on the token sequence the list holds then"""
+    fails, diags, hits, stats = out['fails'], out['diags'], out['hits'], out['stats']
+    base_failed = {(c, k) for c, k, _, _ in fails}
+    member_of = dict(decided)
+    word = lambda e: 'a sentence' if e else 'not a sentence'
+    buf, prev, trail, first_bad, prev_failed, sfx = None, None, [], None, False, SFX_LIST
+    stats['reparse-sessions'] += 1
+    for op, w, layout, style in reparse_plan(gs_sorted, decided, steps):
+        exp = member_of[w]
+        if op == 'new':
+            buf = lines_of(w, layout)
+            sfx = SFX_LIST
+            trail.append(f"a new list object {buf!r} ({word(exp)}) is parsed")
+            hits['reparse:list-of-lines:first-parse'] += 1
+        elif op == 'edit':
+            before = list(buf)
+            target = lines_of(w, layout)
+            ident = id(buf)
+            edit_in_place(buf, target, style)
+            if id(buf) != ident or buf != target or ' '.join(buf).split() != list(w):
+                out['errors'].append(f"harness: in-place edit {before} -> {target} (style {style}) went wrong: {buf}")
+                return
+            sfx = SFX_EDITED
+            trail.append(f"the same list object is edited in place ({EDIT_STYLES[style]}) to {buf!r} ({word(exp)}) "
+                         f"and parsed again")
+            hits[f"reparse:edited-in-place:{'member' if member_of[prev] else 'non-member'}->"
+                 + (('other-' if member_of[prev] == exp else '') + ('member' if exp else 'non-member'))] += 1
+            hits['reparse:edit:' + EDIT_STYLES[style].split(' (')[0].split(' buf')[0]] += 1
+            if len(before) == len(buf) and sum(1 for x, y in zip(before, buf) if x != y) == 1:
+                hits['reparse:edit:one-line-replaced-number-of-lines-unchanged'] += 1
+            if len(before) != len(buf):
+                hits['reparse:edit:number-of-lines-changed'] += 1
+            if len(before) == 0 or len(buf) == 0:
+                hits['reparse:edit:from-or-to-a-list-without-lines'] += 1
+        else:
+            # parsed again right after a failed parse of the same content: the same class as that failure
+            sfx = sfx if prev_failed else SFX_SAME
+            trail.append(f"the same list object, unchanged ({buf!r}, {word(exp)}), is parsed again")
+            hits['reparse:unchanged-object:after-' + ('member' if exp else 'non-member')] += 1
+        snapshot = list(buf)
+        shown = f"parse(<list of lines> {snapshot!r})"
+        res = parse_all(buf, shown)
+        stats['reparse-parses'] += len(res)
+        if buf != snapshot:
+            diags.append(f"supporting: parse() changed the caller's list of lines {snapshot!r} to {buf!r} for "
+                         f"[{gs_sorted}]")
+            buf[:] = snapshot
+        sink = []
+        judge(w, exp, res, shown, sink)
+        prev_failed = bool(sink)
+        if sink:
+            note = (" [history of this call, one parser object per setting throughout: after the str texts, "
+                    + '; then '.join(trail[-3:]) + "]")
+            for clause, ksuf, text, w_ in sink:
+                if (clause, ksuf) not in base_failed:
+                    ksuf += sfx             # the clause holds for every str text of this grammar
+                fails.append([clause, ksuf, text + note, w_])
+            if first_bad is None:
+                first_bad = (snapshot, len(fails) - len(sink), len(fails))
+        prev = w
+    if first_bad is not None:
+        # information for the reader (after the session, so that it cannot influence it): equal lines, NEW object
+        snapshot, i0, i1 = first_bad
+        res = parse_all(list(snapshot), f"parse(<new list object> {snapshot!r})")
+        info = (" [afterwards a NEW list object with equal lines given to the same parser objects: "
+                + ', '.join(f"smart_factorization={s}: {v[1] if v[0] == 'tree' else v[0]}" for s, v in sorted(res.items()))
+                + "]")
+        for f in fails[i0:i1]:
+            f[2] += info
+    for i, f in enumerate(fails):
+        fails[i] = tuple(f)
+
+
+# ---------------------------------------------------------------------------------------------
 # evaluation of all clauses on one grammar
 # ---------------------------------------------------------------------------------------------
 
@@ -171,7 +336,7 @@ def _user_sets(parser, G):
     return nul, fi, fo
 
 
-def evaluate(G, start, terminals, L):
+def evaluate(G, start, terminals, L, reparse_steps=REPARSE_STEPS['quick']):
     """-> dict(fails=[(clause, keysuffix, text, input or None)], diags=[...], hits=Counter, stats=Counter,
                nontrivial=bool, errors=[...])"""
     out = {'fails': [], 'diags': [], 'hits': Counter(), 'stats': Counter(), 'nontrivial': False, 'errors': []}
@@ -258,10 +423,9 @@ def evaluate(G, start, terminals, L):
         hits['order:shortest-first'] += 1
     cur_amb = dict(amb)
     flipped = set()
-    for w, exp in decided:
-        members += exp
-        nonmembers += (not exp)
-        text = gr.text_of(w)
+
+    def parse_all(text, shown):
+        """hand the object `text` to parse() of every parser object -> {smart: (verdict, shape, tree)}"""
         res = {}
         for smart in parsers:
             kind, val, _ = gr.guarded(lambda: parsers[smart].parse(text, do_cleanup=False),
@@ -286,28 +450,35 @@ def evaluate(G, start, terminals, L):
                 flipped.add(smart)
                 got = a2 if kind2 == 'ok' else f"{kind2}: {a2!r}"
                 msg = (f"[{gs}] (start {start}, smart_factorization={smart}, is_ll1={ll1}): is_ambiguous() was "
-                       f"{amb[smart]} on the fresh parser and is {got} after parse({text!r}) ({res[smart][0]}) on the "
+                       f"{amb[smart]} on the fresh parser and is {got} after {shown} ({res[smart][0]}) on the "
                        f"same parser object; the verdict must not change because texts were parsed")
                 if ll1 or amb[smart] is False:
-                    fails.append(('ll1_not_ambiguous', 'changes-after-parsing', msg, w))
+                    fails.append(('ll1_not_ambiguous', 'changes-after-parsing', msg, w_of(text)))
                 else:
                     diags.append('supporting: ' + msg)
+        return res
+
+    def w_of(text):
+        return tuple(text.split()) if isinstance(text, str) else tuple(' '.join(text).split())
+
+    def judge(w, exp, res, shown, sink):
+        """the clauses of one parse: w = the token sequence the text holds at the moment of the call"""
         for smart in checked:
             verdict, shape, tree = res[smart]
             ctx = f"[{gs}] (start {start}, smart_factorization={smart}, is_ll1={ll1}, is_ambiguous()={amb[smart]})"
             cls = 'll1-reported-ambiguous' if amb[smart] else 'conflict-free'
             if verdict == 'no-return':
-                fails.append(('exact_language', 'parse-does-not-return', f"{ctx}: parse({text!r}) did not return", w))
+                sink.append(('exact_language', 'parse-does-not-return', f"{ctx}: {shown} did not return", w))
             elif verdict == 'tree' and not exp:
-                fails.append(('exact_language', f"accepts-non-member:{cls}",
-                              f"{ctx}: parse({text!r}) succeeds but the string is not in L(G)", w))
+                sink.append(('exact_language', f"accepts-non-member:{cls}",
+                             f"{ctx}: {shown} succeeds but the string is not in L(G)", w))
             elif verdict != 'tree' and exp:
                 k = f"rejects-member:{cls}" if verdict == 'ParsingError' else f"member-raises-{verdict}"
-                fails.append(('exact_language', k, f"{ctx}: parse({text!r}) raises {verdict} but the string is in "
-                              f"L(G)", w))
+                sink.append(('exact_language', k, f"{ctx}: {shown} raises {verdict} but the string is in "
+                             f"L(G)", w))
             elif verdict != 'tree' and verdict != 'ParsingError':
-                fails.append(('exact_language', f"non-member-raises-{verdict}",
-                              f"{ctx}: the non-member {text!r} raises {verdict}, not ParsingError", w))
+                sink.append(('exact_language', f"non-member-raises-{verdict}",
+                             f"{ctx}: the non-member {shown} raises {verdict}, not ParsingError", w))
             elif verdict == 'tree':
                 try:
                     if getattr(tree, 'name', None) != start:
@@ -317,23 +488,33 @@ def evaluate(G, start, terminals, L):
                         raise gr.DerivationError(f"yield {y} is not the token sequence")
                     stats['trees-validated'] += 1
                 except gr.DerivationError as e:
-                    fails.append(('unique_tree', 'not-a-derivation-of-the-tokens',
-                                  f"{ctx}: parse({text!r}) returns {shape}: {e}", w))
+                    sink.append(('unique_tree', 'not-a-derivation-of-the-tokens',
+                                 f"{ctx}: {shown} returns {shape}: {e}", w))
                 except Exception as e:      # noqa  (garbage tree)
-                    fails.append(('unique_tree', 'not-a-tree',
-                                  f"{ctx}: parse({text!r}) returns {shape!r}: {type(e).__name__}", w))
+                    sink.append(('unique_tree', 'not-a-tree',
+                                 f"{ctx}: {shown} returns {shape!r}: {type(e).__name__}", w))
         if len(parsers) == 2 and (ll1 or (amb[True] is False and amb[False] is False)):
             (v1, s1, _), (v2, s2, _) = res[True], res[False]
             if v1 != v2:
-                fails.append(('same_for_both_factorizations', 'different-verdict',
-                              f"[{gs}] (start {start}): parse({text!r}) gives {v1} with smart_factorization=True and "
-                              f"{v2} with False", w))
+                sink.append(('same_for_both_factorizations', 'different-verdict',
+                             f"[{gs}] (start {start}): {shown} gives {v1} with smart_factorization=True and "
+                             f"{v2} with False", w))
             elif v1 == 'tree' and s1 != s2:
-                fails.append(('same_for_both_factorizations', 'different-tree',
-                              f"[{gs}] (start {start}): parse({text!r}) gives {s1} with smart_factorization=True and "
-                              f"{s2} with False", w))
+                sink.append(('same_for_both_factorizations', 'different-tree',
+                             f"[{gs}] (start {start}): {shown} gives {s1} with smart_factorization=True and "
+                             f"{s2} with False", w))
             else:
                 stats['factorizations-compared'] += 1
+
+    for w, exp in decided:
+        members += exp
+        nonmembers += (not exp)
+        text = gr.text_of(w)
+        shown = f"parse({text!r})"
+        judge(w, exp, parse_all(text, shown), shown, fails)
+    if reparse_steps and members + nonmembers >= 2:
+        # the plan of the session is a function of the productions, not of their declaration order
+        reparse_session(gr.grammar_str({x: G[x] for x in sorted(G)}), decided, reparse_steps, parse_all, judge, out)
     stats['language-checked'] += 1
     if members and nonmembers:
         hits[f'decl-order:start-symbol-declared-at-position-{pos}'] += 1
@@ -357,9 +538,9 @@ def evaluate(G, start, terminals, L):
     return out
 
 
-def make_case(G, start, terminals, L, w=None):
+def make_case(G, start, terminals, L, w=None, reparse_steps=REPARSE_STEPS['quick']):
     c = {'grammar': gr.to_json(G), 'declaration_order': list(G), 'start': start, 'terminals': list(terminals),
-         'max_len': L}
+         'max_len': L, 'reparse_steps': reparse_steps}
     if w is not None:
         c['input'] = list(w)
     return c
@@ -384,6 +565,7 @@ def work(task):
     terminals, L = fam[2], fam[7]
     cases, fails, hits, diags, stats, errors = [], {}, Counter(), [], Counter(), []
     diag_kinds = set()
+    rsteps = REPARSE_STEPS[tier]
 
     def record(G, start, r, canonical_failed=None):
         cases.append((f"{gr.grammar_str(G)} / start {start} / strings <= {L}", r['nontrivial']))
@@ -401,7 +583,7 @@ def work(task):
                 text += (f" [the clause holds for the same productions declared in the order "
                          f"{', '.join(canonical_failed[None])} (start symbol first)]")
             key = f"C02.{clause}:{ksuf}"
-            case = make_case(G, start, terminals, L, w)
+            case = make_case(G, start, terminals, L, w, rsteps)
             size = len(repr(case))
             cur = fails.get(key)
             if cur is None or size < cur[3]:
@@ -411,7 +593,7 @@ def work(task):
         if gr.left_recursive(G):
             stats['filtered:left-recursive'] += 1
             continue
-        r = evaluate(G, start, terminals, L)
+        r = evaluate(G, start, terminals, L, rsteps)
         record(G, start, r)
         G2 = redeclared(G, tier)
         if G2 is not None:
@@ -419,7 +601,7 @@ def work(task):
             stats['evaluated-in-another-declaration-order'] += 1
             canonical_failed = {(c, k): True for c, k, _, _ in r['fails']}
             canonical_failed[None] = list(G)
-            record(G2, start, evaluate(G2, start, terminals, L), canonical_failed)
+            record(G2, start, evaluate(G2, start, terminals, L, rsteps), canonical_failed)
     return cases, fails, hits, diags, stats, errors
 
 
@@ -469,6 +651,18 @@ def run(b):
                        'decl-order:start-symbol-not-declared-first:start-alternative-ends-in-nullable-symbol:ll1'])
     if stats['evaluated-in-another-declaration-order'] == 0:
         b.error("no grammar was evaluated in a non-canonical declaration order")
+    # the text as a list of lines kept by the caller: edited in place between two parse() calls of the same parser
+    # object so that membership changes in either direction or stays, and handed over again unchanged
+    b.require_reach(['reparse:list-of-lines:first-parse',
+                     'reparse:edited-in-place:member->non-member', 'reparse:edited-in-place:non-member->member',
+                     'reparse:edited-in-place:member->other-member',
+                     'reparse:edited-in-place:non-member->other-non-member',
+                     'reparse:unchanged-object:after-member', 'reparse:unchanged-object:after-non-member',
+                     'reparse:edit:one-line-replaced-number-of-lines-unchanged',
+                     'reparse:edit:number-of-lines-changed', 'reparse:edit:from-or-to-a-list-without-lines']
+                    + ['reparse:edit:' + x.split(' (')[0].split(' buf')[0] for x in EDIT_STYLES])
+    if stats['reparse-parses'] == 0:
+        b.error("no list of lines was parsed again")
 
 
 def replay_case(case):
@@ -479,16 +673,17 @@ def replay_case(case):
             raise RuntimeError('declaration_order does not list exactly the nonterminals of the grammar')
         G = {x: G[x] for x in order}
     start, terminals, L = case['start'], case['terminals'], int(case.get('max_len', 4))
+    rsteps = int(case.get('reparse_steps', REPARSE_STEPS['quick']))
     if not gr.well_formed(G, start, terminals) or gr.left_recursive(G):
         return True, ['grammar is not well-formed or is left-recursive: outside the quantifier of C02']
-    r = evaluate(G, start, terminals, L)
+    r = evaluate(G, start, terminals, L, rsteps)
     if r['errors']:
         raise RuntimeError('; '.join(r['errors']))
     observed = [f"is_ll1 = {gr.is_ll1(G, start)}"] + [f"{c}: {t}" for c, _, t, _ in r['fails']][:12] + r['diags'][:6]
     if r['fails'] and list(G)[0] != start:
         # information only: the same productions with the start symbol declared first
         G0 = {x: G[x] for x in [start] + [x for x in G if x != start]}
-        r0 = evaluate(G0, start, terminals, L)
+        r0 = evaluate(G0, start, terminals, L, rsteps)
         observed.append(f"declared in the order {', '.join(G0)} (start symbol first) the same productions give "
                         + (f"{len(r0['fails'])} failed clause instance(s)" if r0['fails'] else 'no failed clause'))
     return (not r['fails']), observed
